@@ -277,7 +277,7 @@ class Explorer:
         return self.model
 
     # ------------------------------------------------------------------ branching
-    def decide(self, c, payload_fn=None, use_memo=True):
+    def decide(self, c, payload_fn=None):
         if isinstance(c, bool):
             return c
         c = z3.simplify(c)
@@ -285,6 +285,8 @@ class Explorer:
             return True
         if z3.is_false(c):
             return False
+        use_memo = not getattr(self, "_skip_memo_once", False)      # (a flag, not a parameter: harnesses wrap decide)
+        self._skip_memo_once = False
         hit = self._decided.get(c.get_id()) if use_memo else None
         if hit is not None:
             return hit          # the same condition was already decided on this path
@@ -369,7 +371,9 @@ class Explorer:
                 v = m.eval(t, model_completion=True).as_long()
             p = self.pos
             # use_memo=False: every iteration must consume exactly one stack entry so that re-execution stays aligned
-            taken = self.decide(t == v, use_memo=False)
+            self._skip_memo_once = True
+            taken = self.decide(t == v)
+            self._skip_memo_once = False
             if self.pos == p:
                 # t == v simplified to a constant
                 if taken:
